@@ -29,7 +29,7 @@ def parseAnswers (s : String) : Option (List (Option Bool)) :=
 
 def parseSit : String → Option CertSituation
   | "trusted" => some .trusted | "selfsigned" => some .selfSigned | "untrusted" => some .untrustedIssuer
-  | "wrongname" => some .wrongName | "expired" => some .expired | "garbage" => some .garbage
+  | "wrongname" => some .wrongName | "expired" => some .expired | "garbage" => some .garbage | "reset" => some .reset
   | _ => none
 
 def cmdAt (s : String) (k : Nat) : CmdOut :=
